@@ -351,3 +351,13 @@ Theorem C12_kernel_FindSignature :
 Proof. exact go_FindSignature_tie. Qed.
 Print Assumptions C12_kernel_FindSignature.
 
+
+(* ---- format constants ----
+   The models take their format constants from Gen/Consts.v, which is regenerated from /repo's
+   source on every run; Spec/ConstPins.v (committed, written by bin/mkpins) pins every one of them
+   to the value the specifications give it.  A constant that drifts in the Go source breaks this
+   theorem instead of being silently followed by model and generator. *)
+From Fiano Require Spec.ConstPins.
+Theorem C12_format_constants_pinned : Spec.ConstPins.pinned_c12.
+Proof. exact Spec.ConstPins.pins_c12. Qed.
+Print Assumptions C12_format_constants_pinned.
